@@ -35,6 +35,7 @@ inductive POp
   | drop (c : Nat)
   | rebuild
   | mutate (k : Coll)
+  | reload (k : Coll)       -- the real `reload::Handle::reload`: mutate (event `modify:unlocked`), then rebuild
 
 def splitOn' (sep : String) : List String → List String → List (List String)
   | [], cur => [cur.reverse]
@@ -46,6 +47,8 @@ def parseOp : List String → Option POp
   | ["drop", c] => c.toNat?.map .drop
   | ["rebuild"] => some .rebuild
   | ["mut", c, spec] => do let c ← c.toNat?; let k ← parseSpec c spec; pure (.mutate k)
+  | ["newr", c, spec] => do let c ← c.toNat?; let k ← parseSpec c spec; pure (.new k)
+  | ["rl", c, spec] => do let c ← c.toNat?; let k ← parseSpec c spec; pure (.reload k)
   | _ => none
 
 def parseOps (toks : List String) : Option (List POp) :=
@@ -90,6 +93,9 @@ def eventAct (threads : List (List POp)) (ev : String) : Option Act :=
     | .rebuild, "rebuild:rebuilt" => pure .writerLeave
     | .drop c, "dropped" => pure (.other (.dropCollector c))
     | .mutate k, "mutated" => pure (.other (.mutate k.c k.want k.hint))
+    | .reload k, "modify:unlocked" => pure (.other (.mutate k.c k.want k.hint))
+    | .reload _, "rebuild:locked" => pure (.writerEnter .rebuildCache)
+    | .reload _, "rebuild:rebuilt" => pure .writerLeave
     | _, _ => pure .ignore
   | _ => none
 
@@ -139,11 +145,12 @@ def aliveAtEnd (pre : List POp) (threads : List (List POp)) (c : Nat) : Bool :=
 def finalColls (pre : List POp) (threads : List (List POp)) (events : List String) : List Coll :=
   let muts := events.filterMap fun ev =>
     match ev.splitOn "." with
-    | [t, i, "mutated"] =>
+    | [t, i, name] =>
       match t.toNat?, i.toNat? with
-      | some t, some i => match (threads[t]?).bind (·[i]?) with
-        | some (.mutate k) => some k
-        | _ => none
+      | some t, some i => match (threads[t]?).bind (·[i]?), name with
+        | some (.mutate k), "mutated" => some k
+        | some (.reload k), "modify:unlocked" => some k
+        | _, _ => none
       | _, _ => none
     | _ => none
   muts.reverse ++ allColls pre threads
